@@ -296,7 +296,14 @@ def rule_f4(chk: Check, ir, tr):
                     f"the conversion check `{norm_stmt(test)}` treats {bad} differently from CPython, which accepts exactly s, r, a")
     rets = [n for n in fn.body if isinstance(n, ast.Return)]
     chk.count("F4-grammar-side")
-    chk.require(len(rets) == 1 and norm_stmt(_text_var(rets[0].value, fn)) in ("s.encode()[0]", "ord(s)"), "F4-grammar-side",
+    val_ok = len(rets) == 1 and norm_stmt(_text_var(rets[0].value, fn)) in ("s.encode()[0]", "ord(s)")
+    if len(rets) == 1 and not val_ok:
+        # any other spelling (a table lookup, ...): evaluated for the three characters that pass the guard
+        try:
+            val_ok = all(constfold.fold_expr(_text_var(rets[0].value, fn), {"s": c}) == ord(c) for c in "sra")
+        except Exception:
+            val_ok = False
+    chk.require(val_ok, "F4-grammar-side",
                 "check_fstring_conversion:value", where,
                 "the conversion must be the character's code (ord)")
     # FormattedValue.conversion expression in the grammar: -1 / ord('r') for `=` / the checked conversion
